@@ -197,6 +197,18 @@ fn main() {
         classify: classify2,
     };
     let be_len = run.pick(3, 4);
+    // infinities are observations like any other for the warm-up law (seed round 10): the extrema / rank
+    // family has a defined result on them, so its null mask is decided by the count of non-null elements
+    // alone - also on f32, whose null predicates are a separate implementation
+    let mask_inf = SeriesFam {
+        name: "mask-infinite".into(),
+        alpha: vec![None, Some(f64::NEG_INFINITY), Some(0.0), Some(f64::INFINITY)],
+        max_len: run.pick(5, 6),
+        tys: vec![ty_v1::<f64, f64>(), ty_v1::<f32, f32>(), ty_v1::<f32, f64>(), ty_v1::<Option<f32>, Option<f64>>()],
+        fns: V1_CMP.iter().copied().filter(|f| !matches!(f, R1::Minmax)).collect(),
+        paths: vec![Path::Ret],
+        ..shallow(&single)
+    };
     // every NaN is the same null (DESIGN 5.4)
     let single_nan = single.nan_kinds(run.pick(4, 5));
     if let Some(path) = &run.replay {
@@ -215,7 +227,7 @@ fn main() {
                 pairs.check_pair(&word, &a, &b, &mut ctx)
             }
             _ => {
-                for f in [&single, &single_m, &plain, &values, &single_nan] {
+                for f in [&single, &single_m, &plain, &values, &single_nan, &mask_inf] {
                     if f.name == fam {
                         f.check_word(&word, &mut ctx);
                     }
@@ -226,6 +238,7 @@ fn main() {
     }
     let mut total = explore_tree(&single, run.threads);
     total.merge(explore_tree(&single_nan, run.threads));
+    total.merge(explore_tree(&mask_inf, run.threads));
     total.merge(explore_tree(&single_m, run.threads));
     total.merge(explore_tree(&plain, run.threads));
     total.merge(explore_tree(&values, run.threads));
